@@ -617,6 +617,10 @@ func c05Alphabet(zctx *zed.Context) []zed.Type {
 		zctx.LookupTypeSet(named("bar", union(i64, str))),
 		union(fooInt, i64),
 		named("foo", rec([]zed.Field{f("self", fooInt), f("other", named("bar", fooStr))})),
+		// one name bound to two named types with the same underlying type
+		// (foo=int64, foo=bar=int64), bound back to the first and referred to again
+		rec([]zed.Field{f("a", fooInt), f("b", named("foo", named("bar", i64))), f("c", fooInt), f("d", fooInt)}),
+		rec([]zed.Field{f("p", named("foo", named("bar", i64))), f("q", fooInt), f("r", zctx.LookupTypeArray(fooInt)), f("s", named("foo", named("bar", i64)))}),
 	}
 }
 
